@@ -1,34 +1,83 @@
 #!/usr/bin/env python3
-"""Copy confirmed seeded changes (patch.diff, demo.py, notes.md + result of tools/seedcheck.py) into /verif/seeded/."""
-import json, os, shutil, sys, glob
+"""Copy confirmed seeded changes (patch.diff, demo.py, notes.md + the result of tools/seedcheck.py) into /verif/seeded/.
+
+Usage: tools/import_seeds.py [--round N] RESULT.json...
+
+Each RESULT.json is what `tools/seedcheck.py --json` wrote.  A seed directory is either /verif/seeded/<prop>-m<k>
+(re-evaluation of a kept seed: meta.json is refreshed, patch regenerated only if given) or <anywhere>/<prop>/m<k>
+(a new seed).  A seed is kept only when all four confirmations hold: the demonstration passes on the pristine tree,
+the patch applies, the test suite passes with it, the demonstration fails with it."""
+import json
+import os
+import re
+import shutil
+import subprocess
+import sys
+
 VERIF = os.path.dirname(os.path.dirname(os.path.abspath(__file__)))
-resdir = sys.argv[1]
-for jf in sorted(glob.glob(os.path.join(resdir, "*.json"))):
-    for r in json.load(open(jf)):
-        d = r["dir"]
-        prop, m = d.rstrip("/").split("/")[-2:]
-        sid = "%s-%s" % (prop, m)
-        confirmed = r.get("demo_pristine_ok") and r.get("patch_applies") and r.get("demo_fails_with_patch") and r.get("tests_pass")
-        if not confirmed:
-            print("NOT CONFIRMED", sid, {k: r.get(k) for k in ("demo_pristine_ok", "patch_applies", "demo_fails_with_patch", "tests_pass")})
-            continue
-        out = os.path.join(VERIF, "seeded", sid)
-        os.makedirs(out, exist_ok=True)
-        for f in ("patch.diff", "demo.py", "notes.md"):
-            if os.path.exists(os.path.join(d, f)):
-                shutil.copy(os.path.join(d, f), os.path.join(out, f))
-        notes = open(os.path.join(d, "notes.md")).read().strip() if os.path.exists(os.path.join(d, "notes.md")) else ""
-        meta = {
-            "id": sid, "property": prop, "origin": "independent sub-agent given only the property text and a scratch worktree",
-            "needs_to_manifest": notes[:1500],
-            "confirmed": {"demo_passes_on_pristine": True, "patch_applies": True, "test_suite_passes_with_patch": r.get("tests_tail"),
-                          "demo_fails_with_patch": r.get("demo_tail")},
-            "what_i_ran": "tools/seedcheck.py: scratch git worktree of /repo; demo on pristine; git apply patch.diff; pytest "
-                          "pyformlang (289 tests); demo with patch; ./check <props> --no-cache with VERIF_REPO=<worktree>",
-            "checks_run": sorted(r.get("checks", {})),
-            "detected_by": r.get("detected_by", []),
-            "reports": {p: v["violations"] for p, v in r.get("checks", {}).items() if v["violations"]},
-            "analysis_error_in": r.get("analysis_error_in", []),
-        }
-        json.dump(meta, open(os.path.join(out, "meta.json"), "w"), indent=1)
-        print("imported", sid, "detected_by", meta["detected_by"])
+
+
+def sid_of(d):
+    d = d.rstrip("/")
+    last = os.path.basename(d)
+    if re.fullmatch(r"C\d\d-m\d+", last):
+        return last, last.split("-")[0]
+    prop = os.path.basename(os.path.dirname(d))
+    return "%s-%s" % (prop, last), prop
+
+
+def main():
+    args = sys.argv[1:]
+    rnd = None
+    if args and args[0] == "--round":
+        rnd = int(args[1])
+        args = args[2:]
+    base = subprocess.run(["git", "-C", "/repo", "rev-parse", "--short", "HEAD"], capture_output=True, text=True).stdout.strip()
+    for jf in args:
+        for r in json.load(open(jf)):
+            d = r["dir"]
+            sid, prop = sid_of(d)
+            confirmed = r.get("demo_pristine_ok") and r.get("patch_applies") and r.get("demo_fails_with_patch") and r.get("tests_pass")
+            if not confirmed:
+                print("NOT CONFIRMED", sid, {k: r.get(k) for k in ("demo_pristine_ok", "patch_applies", "demo_fails_with_patch", "tests_pass")})
+                continue
+            out = os.path.join(VERIF, "seeded", sid)
+            os.makedirs(out, exist_ok=True)
+            old = {}
+            if os.path.exists(os.path.join(out, "meta.json")):
+                old = json.load(open(os.path.join(out, "meta.json")))
+            if os.path.abspath(d) != os.path.abspath(out):
+                for f in ("patch.diff", "demo.py", "notes.md"):
+                    if os.path.exists(os.path.join(d, f)):
+                        shutil.copy(os.path.join(d, f), os.path.join(out, f))
+            notes = open(os.path.join(out, "notes.md")).read().strip() if os.path.exists(os.path.join(out, "notes.md")) else ""
+            reports = {p: v["violations"] for p, v in r.get("checks", {}).items() if v["violations"] and v["exit"] == 1}
+            expect = {}
+            for p, vs in reports.items():
+                m = re.search(r"role=(\S+)", vs[0])
+                if m:
+                    expect[p] = "role=" + m.group(1)
+            meta = {
+                "id": sid, "property": prop,
+                "origin": "independent sub-agent given only the property text and a scratch worktree",
+                "round": rnd if rnd is not None else old.get("round", 1),
+                "base": base,
+                "needs_to_manifest": notes[:1500],
+                "confirmed": {"demo_passes_on_pristine": True, "patch_applies": True,
+                              "test_suite_passes_with_patch": r.get("tests_tail"),
+                              "demo_fails_with_patch": r.get("demo_tail")},
+                "what_i_ran": "tools/seedcheck.py: scratch git worktree of /repo HEAD (%s); demo on pristine; git apply patch.diff; "
+                              "pytest pyformlang (289 tests); demo with patch; ./check <prop> --no-cache with "
+                              "VERIF_REPO=<worktree> for every claimed property" % base,
+                "checks_run": sorted(r.get("checks", {})),
+                "detected_by": r.get("detected_by", []),
+                "reports": reports,
+                "expect_roles": expect,
+                "analysis_error_in": r.get("analysis_error_in", []),
+            }
+            json.dump(meta, open(os.path.join(out, "meta.json"), "w"), indent=1)
+            print("imported", sid, "detected_by", meta["detected_by"], "errors_in", meta["analysis_error_in"])
+
+
+if __name__ == "__main__":
+    main()
